@@ -3,7 +3,7 @@ CONSTANTS
   Roles = {"server", "client"}
   MaxFrames = 2
   DataLens = {0, 126}
-  PingLens = {0, 1}
+  PingLens = {0}
   CloseLens = {0}
   MaxReads = 99
   MaxWrites = 1
